@@ -51,6 +51,10 @@ pub struct Plan {
     /// true: callers are shuttle tasks interleaved by the simulator's scheduler;
     /// false: callers run one after another, each on a fresh OS thread
     pub shuttle: bool,
+    /// interleaving engine when `shuttle` (= interleaved) is true: "threads" (real OS threads
+    /// handed a baton) or "shuttle" / "" (coroutines on one OS thread)
+    #[serde(default, skip_serializing_if = "String::is_empty")]
+    pub engine: String,
     pub hash_base: u64,
     #[serde(default, skip_serializing_if = "Option::is_none")]
     pub env_before: Option<String>,
